@@ -492,7 +492,8 @@ def random_schema(rng, ntypes=None, cpp_full=False, allow_float=True, allow_gree
                 fixed_types.append(name)
         elif r < 0.42:
             n = rng.randint(1, 4)
-            discs = rng.sample([0, 1, 2, 3, 7, 255, 1000, 0xffffffff], n)
+            # the C++ full back-end cannot compile discriminators >= 2**31 (C12 finding): keep them out of cpp workloads
+            discs = rng.sample([0, 1, 2, 3, 7, 255, 1000, 0x7fffffff if cpp_full else 0xffffffff], n)
             name = fresh(prefix + 'U')
             arms = []
             for i, dv in enumerate(discs):
